@@ -309,6 +309,10 @@ def c17(ctx):
             i += 1
             rows.append({"op": "new", "id": i, "k": kind, "to": 0, "via": via})
     run_script(ctx, rows, "new-default")
+    rows = gen.copy_battery(ctx.rng, "cc14", 0) + gen.copy_battery(ctx.rng, "pn", 0)
+    for to in (0, 1, 5, -1):
+        rows += gen.copy_battery(ctx.rng, "poll", to)
+    run_script(ctx, rows, "copies-by-clone-and-by-copy")
     long_run_battery(ctx, ["cc14", "pn", "poll"])
     canary(ctx, trace, corrupt_field("eqn", False, lambda r: r["op"] == "reset"))
     vacuity(ctx, ["twin.C17", "reset.cc14", "reset.pn", "reset.poll", "copy", "eq"])
